@@ -166,6 +166,20 @@ int main(void)
             else if (id == 5) { sha512_done(&c5, d); n = 64; } else { MD5Final(d, &c0); n = 16; }
             printf("L %s ", tok[1]); vh_puthex(d, n); putchar('\n');
             free(blk);
+        } else if (op == 'G' && nt == 4) {
+            /* ONE update call with n bytes (n may exceed 2^29: the bit count then overflows 32 bits inside a single call);
+               byte k = (k * 131 + seed) & 255 */
+            int id = alg_id(tok[1]); size_t nbytes = (size_t)strtoull(tok[2], NULL, 10), k, n = 0; unsigned seed = (unsigned)strtoul(tok[3], NULL, 10);
+            unsigned char *big = malloc(nbytes ? nbytes : 1); unsigned char d[MAXD];
+            SHA1_CTX c1; sha256_context c2; sha512_context c5; struct MD5Context c0;
+            if (!big) { puts("G nomem"); fflush(stdout); continue; }
+            for (k = 0; k < nbytes; k++) big[k] = (unsigned char)((k * 131u + seed) & 255u);
+            if (id == 1) { crypto_SHA1_Init(&c1); crypto_SHA1_Update(&c1, big, nbytes); crypto_SHA1_Final(&c1, d); n = 20; }
+            else if (id == 2) { sha256_init(&c2); sha256_process(&c2, big, nbytes); sha256_done(&c2, d); n = 32; }
+            else if (id == 5) { sha512_init(&c5); sha512_process(&c5, big, nbytes); sha512_done(&c5, d); n = 64; }
+            else { MD5Init(&c0); MD5Update(&c0, big, (uint32_t)nbytes); MD5Final(d, &c0); n = 16; }
+            printf("G %s ", tok[1]); vh_puthex(d, n); putchar('\n');
+            free(big);
         } else puts("?");
         fflush(stdout);
     }
